@@ -19,7 +19,7 @@ from minecraft.exceptions import IgnorePacket
 
 from pyvc.driver import Unit
 from pyvc.models import AbstractSeq
-from pyvc.values import SInt, SBool, And, Or, Not, Implies
+from pyvc.values import SInt, SBool, And, Or, Not, Implies, Unsupported
 from pyvc.interp import PyRaise
 from pyvc.loops import ForSpec
 from pyvc.models import GhostLock
@@ -91,7 +91,7 @@ class Chain(Unit):
         install_exc_info(I)
         keys = loop_keys(raw(Connection, '_handle_exception'), C_ + '_handle_exception', kind=ast.For)
         if len(keys) != 1:
-            raise RuntimeError('_handle_exception no longer has exactly one loop')
+            raise Unsupported('contract does not fit the code any more: _handle_exception no longer has exactly one loop')
         unit = self
 
         def element(I_, it, j):
